@@ -43,6 +43,10 @@ pub enum Fault {
         /// restrict the injection to the k-th write to this one dump file (index into the callback's files)
         #[serde(default)]
         file: Option<u8>,
+        /// which error the write returns: 0 ENOSPC, 1 EIO, 2 EPIPE, 3 EDQUOT, 4 EROFS, 5 EBADF (any failure of a
+        /// write to an output file counts, not only a full disk)
+        #[serde(default)]
+        errno: u8,
     },
     Kill { syscall: String, k: u32 },
     /// the run cannot even start: 0 blockchain dir missing, 1 index dir missing, 2 rejected range (--end <= --start),
@@ -213,13 +217,13 @@ pub fn check(c: &Case) -> Verdict {
             limit = Some(l);
             of.fsize = Some(l);
         }
-        Fault::Enospc { k, file } => {
+        Fault::Enospc { k, file, errno } => {
             let all = tmp_paths(c.cb, &dump);
             let paths = match file {
                 Some(f) => vec![all[*f as usize % all.len()].clone()],
                 None => all,
             };
-            of.inject = Some(Inject { syscall: "write".into(), action: "error=ENOSPC".into(), when: *k as u64, paths, when_expr: None })
+            of.inject = Some(Inject { syscall: "write".into(), action: format!("error={}", ["ENOSPC", "EIO", "EPIPE", "EDQUOT", "EROFS", "EBADF"][*errno as usize % 6]), when: *k as u64, paths, when_expr: None })
         }
         Fault::Kill { syscall, k } => of.inject = Some(Inject { syscall: syscall.clone(), action: "signal=KILL".into(), when: *k as u64, paths: tmp_paths(c.cb, &dump), when_expr: None }),
         Fault::EmptyRange { beyond } => {
@@ -459,16 +463,34 @@ fn enumerated(seed: u64, tier: Tier) -> Vec<Case> {
             }
         }
         for k in 1..=8 {
-            v.push(mk(Fault::Enospc { k, file: None }));
+            v.push(mk(Fault::Enospc { k, file: None, errno: (k % 6) as u8 }));
         }
         for f in 0..cb.stems().len() as u8 {
             for k in 1..=2 {
-                v.push(mk(Fault::Enospc { k, file: Some(f) }));
+                v.push(mk(Fault::Enospc { k, file: Some(f), errno: ((k + f as u32) % 6) as u8 }));
             }
         }
         for sc in ["openat", "write", "rename", "close"] {
             for k in 1..=6 {
                 v.push(mk(Fault::Kill { syscall: sc.into(), k }));
+            }
+        }
+    }
+    {
+        // every byte of the last block (incl. its 8-byte prefix) as truncation point - the file then ends exactly there,
+        // e.g. right behind the header where the transaction count would start - for csvdump
+        let built = chain.build();
+        let total = built.blocks[5].1.ser().len() as u64 + 8;
+        if total <= 600 || tier == Tier::Thorough {
+            for k in 0..total {
+                let at = (((k << 32) + total - 1) / total).min(u32::MAX as u64) as u32;
+                v.push(Case { chain: chain.clone(), nfiles: 3, cb: Callback::CsvDump, start: None, end: None, fault: Fault::Truncated { h: hsel(5), at }, stale_tmp: false });
+            }
+        } else {
+            // a large last block: the structural cut points (inside and right behind the prefix, the header, the counts)
+            for k in (0..100u64).chain([total - 1, total - 2]) {
+                let at = (((k << 32) + total - 1) / total).min(u32::MAX as u64) as u32;
+                v.push(Case { chain: chain.clone(), nfiles: 3, cb: Callback::CsvDump, start: None, end: None, fault: Fault::Truncated { h: hsel(5), at }, stale_tmp: false });
             }
         }
     }
@@ -490,8 +512,8 @@ fn enumerated(seed: u64, tier: Tier) -> Vec<Case> {
             v.push(mk(Fault::Fsize { num, den: 8, delta }));
         }
         for k in 1..=3 {
-            v.push(mk(Fault::Enospc { k, file: None }));
-            v.push(mk(Fault::Enospc { k, file: Some(k as u8) }));
+            v.push(mk(Fault::Enospc { k, file: None, errno: (k % 6) as u8 }));
+            v.push(mk(Fault::Enospc { k, file: Some(k as u8), errno: 0 }));
             v.push(mk(Fault::Kill { syscall: "write".into(), k }));
         }
     }
@@ -505,7 +527,7 @@ fn enumerated(seed: u64, tier: Tier) -> Vec<Case> {
             v.push(mk(Fault::Fsize { num, den: 8, delta }));
         }
         for k in 1..=2 {
-            v.push(mk(Fault::Enospc { k, file: None }));
+            v.push(mk(Fault::Enospc { k, file: None, errno: (k % 6) as u8 }));
             v.push(mk(Fault::Kill { syscall: "write".into(), k }));
         }
     }
@@ -520,7 +542,7 @@ fn random_strategy(tier: Tier) -> BS<Case> {
         4 => (any::<u16>(), any::<u32>()).prop_map(|(h, at)| Fault::Truncated { h, at }),
         2 => (any::<u16>(), 0u8..4).prop_map(|(h, alias)| Fault::OffsetPastEof { h, alias }),
         4 => (0u32..=1000, -2i32..=2).prop_map(|(num, delta)| Fault::Fsize { num, den: 1000, delta }),
-        2 => (1u32..10, proptest::option::weighted(0.5, 0u8..4)).prop_map(|(k, file)| Fault::Enospc { k, file }),
+        2 => (1u32..10, proptest::option::weighted(0.5, 0u8..4), 0u8..6).prop_map(|(k, file, errno)| Fault::Enospc { k, file, errno }),
         4 => (proptest::sample::select(vec!["openat", "write", "rename", "close"]), 1u32..8).prop_map(|(s, k)| Fault::Kill { syscall: s.to_string(), k }),
         1 => (0u8..=5).prop_map(|kind| Fault::Startup { kind }),
         1 => (0u8..=3).prop_map(|beyond| Fault::EmptyRange { beyond }),
